@@ -229,18 +229,18 @@ Qed.
 Lemma core_kill D from keep w r w' :
   Core (mask D w) ->
   (forall k r0, nth_error (roots w) k = Some r0 -> killedb from keep w r0 = false) ->
-  (forall p, In p D -> killedb from keep w p = true) ->
+  (forall p, In p D -> allocated w p -> killedb from keep w p = true) ->
   (forall p c, killedb from keep w p = false -> lists w p c -> killedb from keep w c = false) ->
   kill_unreachable from keep w = Val (r, w') -> Core w'.
 Proof.
   intros C Hro HD Hcl H. pose proof (kill_skel _ _ _ _ _ H) as Hs.
   apply kill_spec in H as (_ & Hn & _ & Hm & _).
-  assert (HKD : forall p, killedb from keep w p = false -> inb p D = false).
-  { intros p Hp. apply inb_notin. intros Hin. apply HD in Hin. congruence. }
+  assert (HKD : forall p, killedb from keep w p = false -> allocated w p -> inb p D = false).
+  { intros p Hp Ha. apply inb_notin. intros Hin. apply HD in Hin; auto. congruence. }
   eapply (core_cut (killedb from keep w) w w'); auto.
   - unfold roots. rewrite Hm. auto.
   - intros i. rewrite <- (alloc_mask D), <- (next_mask D). apply C.
-  - intros p n Kp Hp. apply (c_nodup _ C p). unfold mask. cbn. rewrite (HKD _ Kp). auto.
+  - intros p n Kp Hp. apply (c_nodup _ C p). unfold mask. cbn. rewrite (HKD _ Kp) by (eexists; eauto). auto.
   - intros k r0 Hk. split.
     + eapply Hro; eauto.
     + destruct (c_roots _ C k r0) as (n & Hn0 & Hp); [rewrite roots_mask; auto|].
@@ -248,6 +248,7 @@ Proof.
   - intros i Hi. apply (proj2 (alloc_mask D w i)) in Hi. destruct (c_depth _ C _ Hi) as (h & Hd). exists h.
     eapply depth_transfer; [|exact Hd]. intros x n Hx. apply mask_parent_back in Hx as (n0 & Hn0 & E). eauto.
   - intros p c Kp Hl. split; [|eapply Hcl; eauto]. apply (par_mask D). apply C. apply lists_mask. split; auto.
+    apply HKD; auto. destruct Hl as (n0 & Hn0 & _). eexists; eauto.
 Qed.
 
 (* ------------------------------------------------------------------ install *)
